@@ -16,11 +16,13 @@
 (*  (ii) every step and query result is compared with what the spec's      *)
 (*       action yields from the previous observed registry: mismatches are *)
 (*       counted in `drift` and printed, never fatal.                      *)
+(* Listings paged with count_total are judged by the same QComplete but    *)
+(* reported through the counter `ctfail` (see IsCT below).                 *)
 (***************************************************************************)
 EXTENDS Cert, CertKeys, Json
 
-VARIABLES l, drift
-tvars == <<reg, out, l, drift>>
+VARIABLES l, drift, ctfail
+tvars == <<reg, out, l, drift, ctfail>>
 
 Trace == ndJsonDeserialize("trace.ndjson")
 
@@ -52,7 +54,20 @@ QDrift(r, qs, i, n) ==
     IF i > Len(qs) THEN 0
     ELSE Count(QConforms(r, qs[i]), <<"DRIFT", "query", n, i, qs[i].k, qs[i].f, qs[i].ps>>) + QDrift(r, qs, i + 1, n)
 
-TraceInit == l = 0 /\ drift = 0 /\ reg = InitReg /\ out = [k |-> "init"]
+\* Listings paged with count_total are judged here, without stopping TLC: the known finding (a certificate is
+\* skipped, exactly as the as-found pagination model says) must not hide any other violation. Every false
+\* QComplete is printed, tagged "asfound" when the recorded result is the one Impl = "asfound" yields.
+IsCT(q) == q.k = "list" /\ q.pm = "total"
+
+RECURSIVE CTFails(_, _, _, _)
+CTFails(r, qs, i, n) ==
+    IF i > Len(qs) THEN 0
+    ELSE (IF IsCT(qs[i])
+          THEN Count(QComplete(r, qs[i]),
+                     <<"CTFAIL", IF QConforms(r, qs[i]) THEN "asfound" ELSE "other", n, i>>)
+          ELSE 0) + CTFails(r, qs, i + 1, n)
+
+TraceInit == l = 0 /\ drift = 0 /\ ctfail = 0 /\ reg = InitReg /\ out = [k |-> "init"]
 
 TraceNext ==
     /\ l < Len(Trace)
@@ -63,7 +78,8 @@ TraceNext ==
         /\ drift' = drift
                     + Count(StepConforms(reg, e, reg'), <<"DRIFT", "step", l', ActOf(e)>>)
                     + QDrift(reg', e.q, 1, l')
-        /\ l' = Len(Trace) => PrintT(<<"DRIFT_TOTAL", drift'>>)
+        /\ ctfail' = ctfail + CTFails(reg', e.q, 1, l')
+        /\ l' = Len(Trace) => PrintT(<<"DRIFT_TOTAL", drift', ctfail'>>)
 
 TraceSpec == TraceInit /\ [][TraceNext]_tvars
 
@@ -76,7 +92,8 @@ T_Unique == l > 0 => ProjUnique(Trace[l].reg)
 T_ListingsTotal ==
     l > 0 => \A i \in DOMAIN Trace[l].q : QTotal(Trace[l].q[i]) \/ Fail("ListingsTotal", i)
 T_ListingComplete ==
-    l > 0 => \A i \in DOMAIN Trace[l].q : QComplete(reg, Trace[l].q[i]) \/ Fail("ListingComplete", i)
+    l > 0 => \A i \in DOMAIN Trace[l].q :
+                IsCT(Trace[l].q[i]) \/ QComplete(reg, Trace[l].q[i]) \/ Fail("ListingComplete", i)
 
 \* every recorded line was consumed
 T_AllConsumed == TLCGet("stats").diameter = Len(Trace) + 1
